@@ -44,6 +44,13 @@ def regions(func):
                 if not any(g in t for g in GUARD_TYPES):
                     continue
                 mode = guard_mode(t)
+                full = t + ' ' + ((v.x or {}).get('desugared') or '') + ' ' + \
+                    ' '.join((c.type or '') + ' ' + ((c.x or {}).get('desugared') or '')
+                             for c in v.walk())
+                if 'pymutex' in full or 'PyMutex' in full:
+                    # free-threaded build: PyMutex detaches the thread state while it waits;
+                    # it does not block other threads' access to the interpreter
+                    mode = 'py-' + (mode or 'exclusive')
                 mutex = None
                 for c in v.walk():
                     if c.kind == 'DeclRefExpr' and c.ref and c.ref.get('kind') == 'VarDecl' and \
@@ -88,6 +95,12 @@ def l1(ctx):
     held = _callers_hold(prog)
     for f in live_funcs(prog):
         for mutex, mode, guard, stmts in regions(f):
+            if (mode or '').startswith('py-'):
+                ctx.info('%s/%s' % (short(f), mutex),
+                         '%s: `%s` is a PyMutex (free-threaded build): waiting detaches the thread '
+                         'state, so holding it across user code cannot wedge the interpreter; '
+                         'not counted' % (inst(f), mutex), guard.loc)
+                continue
             private = {k for k, h in held.items() if mutex in h}
             nreg += 1
             owner = f if not f.is_lambda else prog.funcs.get(f.parent, f)
